@@ -24,11 +24,49 @@ Lemma mul_mod_congr a a' k k' n : n <> 0 -> a mod n = a' mod n -> k mod n = k' m
   (a * k) mod n = (a' * k') mod n.
 Proof. intros Hn H1 H2. rewrite (Z.mul_mod a k), (Z.mul_mod a' k') by assumption. now rewrite H1, H2. Qed.
 
+Section PadP.
+Variable S : Scalar.
+(* ------------------------------------------------------------------ lentil.util.pad keeps the floor(n/2) origin *)
+Lemma pad_axis_spec n N i : 0 < n -> 0 < N -> 0 <= i < N ->
+  let p := pad_axis n N in
+  ((t_lo p <=? i) && (i <? t_hi p)) = inr n (i - N / 2 + n / 2)
+  /\ (t_lo p <= i < t_hi p -> i - t_lo p + s_lo p = i - N / 2 + n / 2).
+Proof.
+  intros Hn HN Hi. unfold pad_axis, inr.
+  destruct (N - n <=? 0) eqn:E; cbn [s_lo s_hi t_lo t_hi]; split; lia.
+Qed.
+
+(* growing or cropping, any parities: output sample i, j is the sample of the zero-extended input that
+   has the same coordinates relative to the index floor(n/2) *)
+Theorem pad_origin (a : arr S) Nr Nc i j : 0 < nr a -> 0 < nc a -> 0 <= i < Nr -> 0 <= j < Nc ->
+  get (pad2 a Nr Nc) i j = embedA S a 0 0 (i - Nr / 2) (j - Nc / 2).
+Proof.
+  intros Ha1 Ha2 Hi Hj. unfold pad2. rewrite force_get by (cbn [nr nc]; lia). cbn [get].
+  destruct (pad_axis_spec (nr a) Nr i Ha1 ltac:(lia) Hi) as [Ar Br].
+  destruct (pad_axis_spec (nc a) Nc j Ha2 ltac:(lia) Hj) as [Ac Bc].
+  set (pr := pad_axis (nr a) Nr) in *. set (pc := pad_axis (nc a) Nc) in *. clearbody pr pc.
+  unfold embedA.
+  replace (i - Nr / 2 - 0 + nr a / 2) with (i - Nr / 2 + nr a / 2) by ring.
+  replace (j - Nc / 2 - 0 + nc a / 2) with (j - Nc / 2 + nc a / 2) by ring.
+  rewrite <- Ar, <- Ac.
+  replace ((t_lo pr <=? i) && (i <? t_hi pr) && (t_lo pc <=? j) && (j <? t_hi pc))
+    with ((t_lo pr <=? i) && (i <? t_hi pr) && ((t_lo pc <=? j) && (j <? t_hi pc))) by (now rewrite !andb_assoc).
+  destruct ((t_lo pr <=? i) && (i <? t_hi pr)) eqn:Er; cbn [andb]; [|reflexivity].
+  destruct ((t_lo pc <=? j) && (j <? t_hi pc)) eqn:Ec; [|reflexivity].
+  rewrite Br, Bc by lia. reflexivity.
+Qed.
+Lemma pad2_shape (a : arr S) Nr Nc : nr (pad2 a Nr Nc) = Nr /\ nc (pad2 a Nr Nc) = Nc.
+Proof. split; reflexivity. Qed.
+End PadP.
+
+(* the kernel has period one turn (a definition, so that [lia] does not drag the hypothesis into unrelated proofs) *)
+Definition periodic (S : Scalar) : Prop := forall z : Z, @ke S (zq z) = k1.
+
 Section FftP.
 Variable S : Scalar.
 Hypothesis Sring : is_ring S.
 Hypothesis Skernel : kernel_laws S.
-Hypothesis Speriod : forall z : Z, @ke S (zq z) = k1.     (* the kernel has period one turn *)
+Hypothesis Speriod : periodic S.
 Variable sq : Qc -> S.
 Add Ring Sr : Sring.
 
@@ -156,38 +194,6 @@ Proof.
   replace (zq (v - nc x / 2) - 0)%Qc with (zq (v - nc x / 2)) by ring. reflexivity.
 Qed.
 
-(* ------------------------------------------------------------------ lentil.util.pad keeps the floor(n/2) origin *)
-Lemma pad_axis_spec n N i : 0 < n -> 0 < N -> 0 <= i < N ->
-  let p := pad_axis n N in
-  ((t_lo p <=? i) && (i <? t_hi p)) = inr n (i - N / 2 + n / 2)
-  /\ (t_lo p <= i < t_hi p -> i - t_lo p + s_lo p = i - N / 2 + n / 2).
-Proof.
-  intros Hn HN Hi. unfold pad_axis, inr.
-  destruct (N - n <=? 0) eqn:E; cbn [s_lo s_hi t_lo t_hi]; split; lia.
-Qed.
-
-(* growing or cropping, any parities: output sample i, j is the sample of the zero-extended input that
-   has the same coordinates relative to the index floor(n/2) *)
-Theorem pad_origin (a : arr S) Nr Nc i j : 0 < nr a -> 0 < nc a -> 0 <= i < Nr -> 0 <= j < Nc ->
-  get (pad2 a Nr Nc) i j = embedA S a 0 0 (i - Nr / 2) (j - Nc / 2).
-Proof.
-  intros Ha1 Ha2 Hi Hj. unfold pad2. rewrite force_get by (cbn [nr nc]; lia). cbn [get].
-  destruct (pad_axis_spec (nr a) Nr i Ha1 ltac:(lia) Hi) as [Ar Br].
-  destruct (pad_axis_spec (nc a) Nc j Ha2 ltac:(lia) Hj) as [Ac Bc].
-  set (pr := pad_axis (nr a) Nr) in *. set (pc := pad_axis (nc a) Nc) in *. clearbody pr pc.
-  unfold embedA.
-  replace (i - Nr / 2 - 0 + nr a / 2) with (i - Nr / 2 + nr a / 2) by ring.
-  replace (j - Nc / 2 - 0 + nc a / 2) with (j - Nc / 2 + nc a / 2) by ring.
-  rewrite <- Ar, <- Ac.
-  replace ((t_lo pr <=? i) && (i <? t_hi pr) && (t_lo pc <=? j) && (j <? t_hi pc))
-    with ((t_lo pr <=? i) && (i <? t_hi pr) && ((t_lo pc <=? j) && (j <? t_hi pc))) by (now rewrite !andb_assoc).
-  destruct ((t_lo pr <=? i) && (i <? t_hi pr)) eqn:Er; cbn [andb]; [|reflexivity].
-  destruct ((t_lo pc <=? j) && (j <? t_hi pc)) eqn:Ec; [|reflexivity].
-  rewrite Br, Bc by lia. reflexivity.
-Qed.
-Lemma pad2_shape (a : arr S) Nr Nc : nr (pad2 a Nr Nc) = Nr /\ nc (pad2 a Nr Nc) = Nc.
-Proof. split; reflexivity. Qed.
-
 (* ------------------------------------------------------------------ an array placed on a larger grid *)
 (* a grid that shows the zero-extended array [a] (centre offset (orr, occ)) and contains all of it has the
    Fourier sum of [a] taken with that offset: the origin convention of C01 *)
@@ -222,3 +228,365 @@ Proof.
   change (nr (pad2 a Nr Nc)) with Nr. change (nc (pad2 a Nr Nc)) with Nc.
   intros i j Hi Hj. now apply pad_origin.
 Qed.
+
+(* ------------------------------------------------------------------ rendering fields into an array *)
+Definition fgood (f : field S) : Prop := match fd f with D0 _ => False | D2 d => 0 < nr d /\ 0 < nc d end.
+Definition esum (fs : list (field S)) (r c : Z) (a : S) : S := fold_left (fun acc f => (acc + embed f r c)%K) fs a.
+Definition rstep (acc : result (arr S)) (f : field S) : result (arr S) :=
+  rbind acc (fun o => rbind (insert (fun x => x) f o k1) (fun o' => Ok (force o'))).
+Lemma render_unfold fs n m : render fs n m = fold_left rstep fs (Ok (azeros n m)).
+Proof. reflexivity. Qed.
+Lemma embed_sum_esum fs r c : embed_sum fs r c = esum fs r c k0. Proof. reflexivity. Qed.
+
+Lemma rfold_spec (fs : list (field S)) : forall out : arr S,
+  (forall f, In f fs -> fgood f) -> 0 < nr out -> 0 < nc out ->
+  exists o, fold_left rstep fs (Ok out) = Ok o /\ nr o = nr out /\ nc o = nc out /\
+  forall i j, 0 <= i < nr out -> 0 <= j < nc out ->
+    get o i j = esum fs (i - nr out / 2) (j - nc out / 2) (get out i j).
+Proof.
+  induction fs as [|f fs IH]; intros out Hg H1 H2.
+  - exists out. cbn. repeat split; reflexivity.
+  - assert (Gf : fgood f) by (apply Hg; now left). unfold fgood in Gf.
+    destruct (fd f) as [v|d] eqn:Ed; [contradiction|]. destruct Gf as [Gd1 Gd2].
+    destruct (insert_spec S Sring (fun x => x) f d out k1 Ed Gd1 Gd2 H1 H2 eq_refl) as (o1 & E1 & S1 & S2 & V1).
+    cbn [fold_left]. unfold rstep at 2. cbn [rbind]. rewrite E1. cbn [rbind].
+    destruct (IH (force o1)) as (o & E & T1 & T2 & V).
+    + intros g Hin. apply Hg. now right.
+    + rewrite force_nr. lia.
+    + rewrite force_nc. lia.
+    + exists o. rewrite force_nr, force_nc in *. repeat split; try congruence.
+      intros i j Hi Hj. rewrite S1, S2 in V. rewrite V by lia. rewrite force_get by lia. rewrite V1 by lia.
+      unfold esum. cbn [fold_left]. f_equal. ring.
+Qed.
+
+Theorem render_spec (fs : list (field S)) n m : (forall f, In f fs -> fgood f) -> 0 < n -> 0 < m ->
+  exists o, render fs n m = Ok o /\ nr o = n /\ nc o = m /\
+  forall i j, 0 <= i < n -> 0 <= j < m -> get o i j = embed_sum fs (i - n / 2) (j - m / 2).
+Proof.
+  intros Hg Hn Hm. rewrite render_unfold.
+  destruct (rfold_spec fs (azeros n m) Hg Hn Hm) as (o & E & S1 & S2 & V).
+  exists o. split; [exact E|split; [exact S1|split; [exact S2|]]]. cbn [azeros nr nc get] in V.
+  intros i j Hi Hj. now rewrite V.
+Qed.
+
+(* ------------------------------------------------------------------ the scratch buffer *)
+Lemma scratch_fold_spec N0 N1 (fs : list (field S)) : forall b : arr S,
+  (forall f, In f fs -> fgood f) -> 0 < N0 <= nr b -> 0 < N1 <= nc b ->
+  exists b', fold_left (scratch_step N0 N1) fs (Ok b) = Ok b' /\ nr b' = nr b /\ nc b' = nc b /\
+  forall i j, 0 <= i < N0 -> 0 <= j < N1 -> get b' i j = esum fs (i - N0 / 2) (j - N1 / 2) (get b i j).
+Proof.
+  induction fs as [|f fs IH]; intros b Hg H1 H2.
+  - exists b. cbn. repeat split; reflexivity.
+  - assert (Gf : fgood f) by (apply Hg; now left). unfold fgood in Gf.
+    destruct (fd f) as [v|d] eqn:Ed; [contradiction|]. destruct Gf as [Gd1 Gd2].
+    set (view := aslice b 0 N0 0 N1).
+    assert (Hv1 : nr view = N0) by (cbn; lia). assert (Hv2 : nc view = N1) by (cbn; lia).
+    destruct (insert_spec S Sring (fun x => x) f d view k1 Ed Gd1 Gd2 ltac:(lia) ltac:(lia) eq_refl)
+      as (o1 & E1 & S1 & S2 & V1).
+    cbn [fold_left]. unfold scratch_step at 2. cbn [rbind]. fold view. rewrite E1. cbn [rbind].
+    destruct (IH (force (assign_region b N0 N1 o1))) as (b' & E & T1 & T2 & V).
+    + intros g Hin. apply Hg. now right.
+    + rewrite force_nr. cbn [assign_region nr]. lia.
+    + rewrite force_nc. cbn [assign_region nc]. lia.
+    + exists b'. rewrite force_nr, force_nc in *. cbn [assign_region nr nc] in *. repeat split; try assumption.
+      intros i j Hi Hj. rewrite V by lia. rewrite force_get by (cbn [assign_region nr nc]; lia).
+      cbn [assign_region get]. replace ((0 <=? i) && (i <? N0) && (0 <=? j) && (j <? N1)) with true by lia.
+      rewrite V1 by lia. rewrite Hv1, Hv2. subst view. cbn [aslice get].
+      rewrite !Z.add_0_r. unfold esum. cbn [fold_left]. f_equal. ring.
+Qed.
+
+Theorem scratch_fill_spec N0 N1 (fs : list (field S)) (buf : arr S) :
+  (forall f, In f fs -> fgood f) -> 0 < N0 <= nr buf -> 0 < N1 <= nc buf ->
+  exists b', scratch_fill fs N0 N1 buf = Ok b' /\ nr b' = nr buf /\ nc b' = nc buf /\
+  forall i j, 0 <= i < N0 -> 0 <= j < N1 -> get b' i j = embed_sum fs (i - N0 / 2) (j - N1 / 2).
+Proof.
+  intros Hg H1 H2. unfold scratch_fill.
+  destruct (scratch_fold_spec N0 N1 fs (assign_region buf N0 N1 (azeros N0 N1)) Hg H1 H2) as (b' & E & S1 & S2 & V).
+  exists b'. split; [exact E|split; [exact S1|split; [exact S2|]]].
+  intros i j Hi Hj. rewrite V by assumption.
+  cbn [assign_region get azeros]. replace ((0 <=? i) && (i <? N0) && (0 <=? j) && (j <? N1)) with true by lia.
+  reflexivity.
+Qed.
+
+(* ------------------------------------------------------------------ the grid the FFT is applied to *)
+(* the input plane (sum of the zero-extended fields) seen through the centred N0 x N1 window *)
+Definition grid_of (fs : list (field S)) (N0 N1 : Z) : arr S :=
+  mkArr N0 N1 (fun a b => embed_sum fs (a - N0 / 2) (b - N1 / 2)).
+(* every field lies inside the wavefront's own shape (true of every product Wavefront * Plane) *)
+Definition inside_shape (w : wavefront S) : Prop :=
+  forall f r c, In f (wdata w) ->
+    inr (fst (wshape w)) (r + fst (wshape w) / 2) && inr (snd (wshape w)) (c + snd (wshape w) / 2) = false ->
+    embed f r c = k0.
+Definition scratch_ok (N0 N1 : Z) (w : wavefront S) (scratch : option (arr S)) : Prop :=
+  match scratch with
+  | Some buf => N0 <= nr buf /\ N1 <= nc buf
+  | None => 0 < fst (wshape w) /\ 0 < snd (wshape w) /\ inside_shape w
+  end.
+
+Lemma fft2c_ext (x y : arr S) u v : nr x = nr y -> nc x = nc y ->
+  (forall i j, 0 <= i < nr x -> 0 <= j < nc x -> get x i j = get y i j) ->
+  0 <= u < nr x -> 0 <= v < nc x -> get (fft2c sq x) u v = get (fft2c sq y) u v.
+Proof.
+  intros E1 E2 H Hu Hv. rewrite !fft2c_is_fourier_sum by lia. rewrite <- E1, <- E2. f_equal.
+  apply fourier_sum_ext; assumption.
+Qed.
+
+Lemma fft_field_spec N0 N1 (w : wavefront S) scratch :
+  0 < N0 -> 0 < N1 -> (forall f, In f (wdata w) -> fgood f) -> scratch_ok N0 N1 w scratch ->
+  exists F sc, fft_field sq N0 N1 w scratch = Ok (F, sc) /\ nr F = N0 /\ nc F = N1 /\
+  forall u v, 0 <= u < N0 -> 0 <= v < N1 ->
+    get F u v = (fourier_sum (grid_of (wdata w) N0 N1) (/ zq N0)%Qc (/ zq N1)%Qc 0 0
+                             (zq (u - N0 / 2)) (zq (v - N1 / 2)) * ortho_scale sq N0 N1)%K.
+Proof.
+  intros H0 H1 Hg Hs. unfold fft_field. destruct scratch as [buf|]; cbn [scratch_ok] in Hs.
+  - destruct Hs as [B0 B1]. replace (negb ((N0 <=? nr buf) && (N1 <=? nc buf))) with false by lia.
+    destruct (scratch_fill_spec N0 N1 (wdata w) buf Hg ltac:(lia) ltac:(lia)) as (b & E & S1 & S2 & V).
+    rewrite E. cbn [rbind]. eexists; eexists. split; [reflexivity|].
+    split; [cbn; lia|]. split; [cbn; lia|]. intros u v Hu Hv.
+    rewrite (fft2c_ext (aslice b 0 N0 0 N1) (grid_of (wdata w) N0 N1)); cbn [aslice grid_of nr nc get]; try lia.
+    + rewrite fft2c_is_fourier_sum by (cbn [grid_of nr nc]; lia). reflexivity.
+    + intros i j Hi Hj. rewrite !Z.add_0_r. apply V; lia.
+  - destruct Hs as (W0 & W1 & Hin).
+    destruct (render_spec (wdata w) _ _ Hg W0 W1) as (R & E & S1 & S2 & V).
+    rewrite E. cbn [rbind]. eexists; eexists. split; [reflexivity|].
+    split; [reflexivity|]. split; [reflexivity|]. intros u v Hu Hv.
+    rewrite (fft2c_ext (pad2 R N0 N1) (grid_of (wdata w) N0 N1)); try reflexivity.
+    + rewrite fft2c_is_fourier_sum by (cbn [grid_of nr nc]; lia). reflexivity.
+    + change (nr (pad2 R N0 N1)) with N0. change (nc (pad2 R N0 N1)) with N1.
+      intros i j Hi Hj. rewrite pad_origin by lia. cbn [grid_of get]. unfold embedA. rewrite S1, S2.
+      replace (i - N0 / 2 - 0 + fst (wshape w) / 2) with (i - N0 / 2 + fst (wshape w) / 2) by ring.
+      replace (j - N1 / 2 - 0 + snd (wshape w) / 2) with (j - N1 / 2 + snd (wshape w) / 2) by ring.
+      destruct (inr (fst (wshape w)) (i - N0 / 2 + fst (wshape w) / 2) &&
+                inr (snd (wshape w)) (j - N1 / 2 + snd (wshape w) / 2)) eqn:Ew.
+      * unfold inr in Ew. rewrite V by lia. f_equal; ring.
+      * rewrite embed_sum_esum. unfold esum. rewrite (embed_sum_zero S Sring); [reflexivity|].
+        intros f Hf. apply Hin; assumption.
+    + exact Hu. + exact Hv.
+Qed.
+
+(* ------------------------------------------------------------------ propagate_fft *)
+Definition accepted_shape (N0 N1 : Z) (shape : option (Z * Z)) (os : Z) : Prop :=
+  match shape with
+  | None => True
+  | Some s => 0 < fst s /\ 0 < snd s /\ fst s * os <= N0 /\ snd s * os <= N1
+  end.
+Definition shape_out (N0 N1 : Z) (shape : option (Z * Z)) (os : Z) : Z * Z :=
+  match shape with None => (N0, N1) | Some s => (fst s * os, snd s * os) end.
+
+(* T09d: every output sample is the unitary Fraunhofer sum, at alpha = 1/N, of the input plane on the grid,
+   evaluated on the centred output window *)
+Theorem propagate_fft_samples N0 N1 (w : wavefront S) du shape os scratch pt :
+  0 < N0 -> 0 < N1 -> 0 < os -> has_tilt w = false -> propagate_ptype (wpt w) = Ok pt ->
+  (forall f, In f (wdata w) -> fgood f) -> accepted_shape N0 N1 shape os -> scratch_ok N0 N1 w scratch ->
+  exists out sc, propagate_fft_N sq N0 N1 w du shape os scratch = Ok (out, sc) /\
+    wshape out = shape_out N0 N1 shape os /\
+    wlam out = prop_wavelength N0 N1 (wpix w) du (wz w) os /\ wpt out = pt /\ wz out = wz w /\
+    exists o, wfield out = Ok o /\ nr o = fst (shape_out N0 N1 shape os) /\ nc o = snd (shape_out N0 N1 shape os) /\
+    forall i j, 0 <= i < nr o -> 0 <= j < nc o ->
+      get o i j = (fourier_sum (grid_of (wdata w) N0 N1) (/ zq N0)%Qc (/ zq N1)%Qc 0 0
+                               (zq (i - nr o / 2)) (zq (j - nc o / 2)) * ortho_scale sq N0 N1)%K.
+Proof.
+  intros H0 H1 Hos Ht Hpt Hg Hsh Hsc. unfold propagate_fft_N. rewrite Ht, Hpt. cbn [rbind].
+  assert (Eso : out_shape N0 N1 shape os = Ok (shape_out N0 N1 shape os)).
+  { unfold out_shape, shape_out. destruct shape as [s|]; [|reflexivity]. cbn [accepted_shape] in Hsh.
+    replace ((N0 <? fst s * os) || (N1 <? snd s * os)) with false by lia. reflexivity. }
+  assert (Hso : 0 < fst (shape_out N0 N1 shape os) <= N0 /\ 0 < snd (shape_out N0 N1 shape os) <= N1).
+  { unfold shape_out. destruct shape as [s|]; cbn [fst snd accepted_shape] in *; nia. }
+  rewrite Eso. cbn [rbind]. set (so := shape_out N0 N1 shape os) in *. clearbody so. destruct so as [so0 so1].
+  cbn [fst snd] in *.
+  destruct (fft_field_spec N0 N1 w scratch H0 H1 Hg Hsc) as (F & sc & E & S1 & S2 & V).
+  rewrite E. cbn [rbind fst snd]. eexists; eexists. split; [reflexivity|]. cbn [wshape wlam wpt wz].
+  do 4 (split; [reflexivity|]). unfold wfield. cbn [wdata wshape fst snd].
+  destruct (render_spec [mkField (D2 F) 0 0 []] so0 so1) as (o & Eo & T1 & T2 & W); try lia.
+  { intros f [<-|[]]. unfold fgood. cbn [fd]. lia. }
+  exists o. split; [exact Eo|]. split; [exact T1|]. split; [exact T2|]. rewrite T1, T2.
+  intros i j Hi Hj. rewrite W by assumption. rewrite embed_sum_esum. unfold esum. cbn [fold_left].
+  rewrite embed_D2. unfold embedA, inr. rewrite S1, S2.
+  replace ((0 <=? i - so0 / 2 - 0 + N0 / 2) && (i - so0 / 2 - 0 + N0 / 2 <? N0) &&
+           ((0 <=? j - so1 / 2 - 0 + N1 / 2) && (j - so1 / 2 - 0 + N1 / 2 <? N1))) with true by lia.
+  rewrite V by lia.
+  replace (i - so0 / 2 - 0 + N0 / 2 - N0 / 2) with (i - so0 / 2) by ring.
+  replace (j - so1 / 2 - 0 + N1 / 2 - N1 / 2) with (j - so1 / 2) by ring. ring.
+Qed.
+
+(* ------------------------------------------------------------------ the grid transform is the sum of the field transforms *)
+(* the Fourier sum of one field, taken with its offset: what lentil.fourier.dft2(field.data, alpha, offset=field.offset)
+   computes (C01) and propagate_dft adds up over the fields of an untilted wavefront (C02) *)
+Definition field_ft (ar ac U V : Qc) (f : field S) : S :=
+  match fd f with D2 d => fourier_sum d ar ac (offr f) (offc f) U V | D0 _ => k0 end.
+Definition fits (N0 N1 : Z) (f : field S) : Prop :=
+  match fd f with
+  | D2 d => 0 <= N0 / 2 - nr d / 2 + offr f /\ N0 / 2 - nr d / 2 + offr f + nr d <= N0 /\
+            0 <= N1 / 2 - nc d / 2 + offc f /\ N1 / 2 - nc d / 2 + offc f + nc d <= N1
+  | D0 _ => False
+  end.
+
+Lemma fourier_sum_zero n m ar ac U V : fourier_sum (mkArr n m (fun _ _ => @k0 S)) ar ac 0 0 U V = k0.
+Proof. unfold fourier_sum. cbn [nr nc get]. apply (sumZ_zero_ext S Sring). intros x Hx.
+  apply (sumZ_zero_ext S Sring). intros y Hy. ring. Qed.
+
+Lemma grid_transform_acc N0 N1 ar ac U V (fs : list (field S)) : forall A : Z -> Z -> S,
+  (forall f, In f fs -> fgood f /\ fits N0 N1 f) ->
+  fourier_sum (mkArr N0 N1 (fun a b => esum fs (a - N0 / 2) (b - N1 / 2) (A a b))) ar ac 0 0 U V
+  = fold_left (fun acc f => (acc + field_ft ar ac U V f)%K) fs (fourier_sum (mkArr N0 N1 A) ar ac 0 0 U V).
+Proof.
+  induction fs as [|f fs IH]; intros A H; [reflexivity|].
+  destruct (H f (or_introl eq_refl)) as [Gf Ff].
+  cbn [fold_left]. unfold esum in *. cbn [fold_left].
+  rewrite (IH (fun a b => (A a b + embed f (a - N0 / 2) (b - N1 / 2))%K)) by (intros g Hg; apply H; now right).
+  f_equal.
+  pose proof (fourier_sum_add S Sring (mkArr N0 N1 A) (mkArr N0 N1 (fun a b => embed f (a - N0 / 2) (b - N1 / 2)))
+                ar ac 0 0 U V eq_refl eq_refl) as Hadd. cbn [nr nc get] in Hadd. rewrite Hadd. f_equal.
+  unfold field_ft, fgood, fits in *. destruct f as [fdf orr occ tl]. cbn [fd offr offc] in *.
+  destruct fdf as [v|d]; [contradiction|].
+  apply fourier_sum_embedded; cbn [nr nc get]; try lia.
+  intros i j Hi Hj. apply embed_D2.
+Qed.
+
+Theorem grid_transform_is_sum_of_fields N0 N1 ar ac U V (fs : list (field S)) :
+  (forall f, In f fs -> fgood f /\ fits N0 N1 f) ->
+  fourier_sum (grid_of fs N0 N1) ar ac 0 0 U V
+  = fold_left (fun acc f => (acc + field_ft ar ac U V f)%K) fs k0.
+Proof.
+  intros H. unfold grid_of. rewrite <- (fourier_sum_zero N0 N1 ar ac U V).
+  rewrite <- (grid_transform_acc N0 N1 ar ac U V fs (fun _ _ => k0) H). reflexivity.
+Qed.
+
+(* ------------------------------------------------------------------ refusals *)
+Theorem tilt_refused N0 N1 (w : wavefront S) du shape os scratch :
+  has_tilt w = true -> propagate_fft_N sq N0 N1 w du shape os scratch = Err NotImplementedErr.
+Proof. intros H. unfold propagate_fft_N. now rewrite H. Qed.
+Lemma has_tilt_iff (w : wavefront S) : has_tilt w = true <-> exists f, In f (wdata w) /\ ftilt f <> [].
+Proof.
+  unfold has_tilt. rewrite existsb_exists. split; intros (f & Hin & Hf); exists f; (split; [assumption|]);
+  unfold tilted in *; destruct (ftilt f); congruence.
+Qed.
+
+Theorem shape_refused N0 N1 (w : wavefront S) du s os scratch pt :
+  has_tilt w = false -> propagate_ptype (wpt w) = Ok pt -> (N0 < fst s * os \/ N1 < snd s * os) ->
+  propagate_fft_N sq N0 N1 w du (Some s) os scratch = Err ValueError.
+Proof.
+  intros Ht Hpt Hs. unfold propagate_fft_N. rewrite Ht, Hpt. cbn [rbind out_shape].
+  replace ((N0 <? fst s * os) || (N1 <? snd s * os)) with true by lia. reflexivity.
+Qed.
+
+Theorem small_scratch_refused N0 N1 (w : wavefront S) du shape os buf pt so :
+  has_tilt w = false -> propagate_ptype (wpt w) = Ok pt -> out_shape N0 N1 shape os = Ok so ->
+  (nr buf < N0 \/ nc buf < N1) ->
+  propagate_fft_N sq N0 N1 w du shape os (Some buf) = Err ValueError.
+Proof.
+  intros Ht Hpt Hso Hb. unfold propagate_fft_N. rewrite Ht, Hpt, Hso. cbn [rbind fft_field].
+  replace (negb ((N0 <=? nr buf) && (N1 <=? nc buf))) with true by lia. reflexivity.
+Qed.
+
+(* ------------------------------------------------------------------ the scratch buffer is transparent *)
+(* two scratch buffers of any sufficient shapes and any contents: same metadata, same field *)
+Theorem scratch_content_irrelevant N0 N1 (w : wavefront S) du shape os (buf1 buf2 : arr S) pt :
+  0 < N0 -> 0 < N1 -> 0 < os -> has_tilt w = false -> propagate_ptype (wpt w) = Ok pt ->
+  (forall f, In f (wdata w) -> fgood f) -> accepted_shape N0 N1 shape os ->
+  N0 <= nr buf1 -> N1 <= nc buf1 -> N0 <= nr buf2 -> N1 <= nc buf2 ->
+  exists out1 sc1 out2 sc2 o1 o2,
+    propagate_fft_N sq N0 N1 w du shape os (Some buf1) = Ok (out1, sc1) /\
+    propagate_fft_N sq N0 N1 w du shape os (Some buf2) = Ok (out2, sc2) /\
+    wshape out1 = wshape out2 /\ wlam out1 = wlam out2 /\ wpt out1 = wpt out2 /\
+    wfield out1 = Ok o1 /\ wfield out2 = Ok o2 /\ nr o1 = nr o2 /\ nc o1 = nc o2 /\
+    forall i j, 0 <= i < nr o1 -> 0 <= j < nc o1 -> get o1 i j = get o2 i j.
+Proof.
+  intros H0 H1 Hos Ht Hpt Hg Hsh A1 A2 B1 B2.
+  destruct (propagate_fft_samples N0 N1 w du shape os (Some buf1) pt H0 H1 Hos Ht Hpt Hg Hsh (conj A1 A2))
+    as (out1 & sc1 & E1 & P1 & Q1 & R1 & _ & o1 & F1 & G1 & K1 & V1).
+  destruct (propagate_fft_samples N0 N1 w du shape os (Some buf2) pt H0 H1 Hos Ht Hpt Hg Hsh (conj B1 B2))
+    as (out2 & sc2 & E2 & P2 & Q2 & R2 & _ & o2 & F2 & G2 & K2 & V2).
+  exists out1, sc1, out2, sc2, o1, o2. repeat (split; [congruence|]).
+  intros i j Hi Hj. rewrite V1, V2 by congruence. congruence.
+Qed.
+
+(* with a scratch buffer or without: same metadata, same field *)
+Theorem scratch_equals_unbuffered N0 N1 (w : wavefront S) du shape os (buf : arr S) pt :
+  0 < N0 -> 0 < N1 -> 0 < os -> has_tilt w = false -> propagate_ptype (wpt w) = Ok pt ->
+  (forall f, In f (wdata w) -> fgood f) -> accepted_shape N0 N1 shape os ->
+  N0 <= nr buf -> N1 <= nc buf ->
+  0 < fst (wshape w) -> 0 < snd (wshape w) -> inside_shape w ->
+  exists out1 sc1 out2 o1 o2,
+    propagate_fft_N sq N0 N1 w du shape os (Some buf) = Ok (out1, sc1) /\
+    propagate_fft_N sq N0 N1 w du shape os None = Ok (out2, None) /\
+    wshape out1 = wshape out2 /\ wlam out1 = wlam out2 /\ wpt out1 = wpt out2 /\
+    wfield out1 = Ok o1 /\ wfield out2 = Ok o2 /\ nr o1 = nr o2 /\ nc o1 = nc o2 /\
+    forall i j, 0 <= i < nr o1 -> 0 <= j < nc o1 -> get o1 i j = get o2 i j.
+Proof.
+  intros H0 H1 Hos Ht Hpt Hg Hsh A1 A2 W0 W1 Hin.
+  destruct (propagate_fft_samples N0 N1 w du shape os (Some buf) pt H0 H1 Hos Ht Hpt Hg Hsh (conj A1 A2))
+    as (out1 & sc1 & E1 & P1 & Q1 & R1 & _ & o1 & F1 & G1 & K1 & V1).
+  destruct (propagate_fft_samples N0 N1 w du shape os None pt H0 H1 Hos Ht Hpt Hg Hsh (conj W0 (conj W1 Hin)))
+    as (out2 & sc2 & E2 & P2 & Q2 & R2 & _ & o2 & F2 & G2 & K2 & V2).
+  assert (sc2 = None).
+  { unfold propagate_fft_N in E2. rewrite Ht, Hpt in E2. cbn [rbind] in E2.
+    destruct (out_shape N0 N1 shape os); cbn [rbind] in E2; [|discriminate].
+    unfold fft_field in E2. destruct (render (wdata w) (fst (wshape w)) (snd (wshape w))); cbn [rbind fst snd] in E2; congruence. }
+  subst sc2. exists out1, sc1, out2, o1, o2. repeat (split; [congruence|]).
+  intros i j Hi Hj. rewrite V1, V2 by congruence. congruence.
+Qed.
+
+(* the code's own grid: propagate_fft is propagate_fft_N at _fft_shape's grid, so every statement above holds for it *)
+Lemma propagate_fft_unfold (w : wavefront S) du shape os scratch :
+  propagate_fft sq w du shape os scratch
+  = propagate_fft_N sq (fst (fft_grid (wpix w) du (wz w) (wlam w) os)) (snd (fft_grid (wpix w) du (wz w) (wlam w) os))
+                    w du shape os scratch.
+Proof. reflexivity. Qed.
+
+(* a scratch buffer of exactly scratch_shape(wavelength, dx, du, z, oversample) is accepted *)
+Theorem scratch_exact_accepted (w : wavefront S) du shape os (buf : arr S) pt :
+  let N := scratch_shape [wlam w] (wpix w) du (wz w) os in
+  nr buf = fst N -> nc buf = snd N ->
+  0 < fst N -> 0 < snd N -> 0 < os -> has_tilt w = false -> propagate_ptype (wpt w) = Ok pt ->
+  (forall f, In f (wdata w) -> fgood f) -> accepted_shape (fst N) (snd N) shape os ->
+  exists out sc, propagate_fft sq w du shape os (Some buf) = Ok (out, sc).
+Proof.
+  intros N B0 B1 H0 H1 Hos Ht Hpt Hg Hsh. rewrite propagate_fft_unfold.
+  change (fft_grid (wpix w) du (wz w) (wlam w) os) with N.
+  destruct (propagate_fft_samples (fst N) (snd N) w du shape os (Some buf) pt H0 H1 Hos Ht Hpt Hg Hsh)
+    as (out & sc & E & _); [cbn [scratch_ok]; lia|].
+  now exists out, sc.
+Qed.
+End FftP.
+
+(* ------------------------------------------------------------------ the reported wavelength *)
+Lemma qleb_refl a : qleb a a = true.
+Proof. unfold qleb. apply Qle_bool_iff. apply Qle_refl. Qed.
+Lemma qmin_same a : qmin a a = a. Proof. unfold qmin. now rewrite qleb_refl. Qed.
+
+(* on the axis whose value the minimum takes, the DFT sampling ratio at the reported wavelength is exactly 1/N *)
+Theorem reported_wavelength_axis0 N0 N1 dx du z os :
+  N0 <> 0 -> os <> 0 -> fst dx <> 0%Qc -> fst du <> 0%Qc -> z <> 0%Qc ->
+  qleb ((zq N0 / zq os * fst dx * fst du) / z)%Qc ((zq N1 / zq os * snd dx * snd du) / z)%Qc = true ->
+  fst (dft_alpha dx du (prop_wavelength N0 N1 dx du z os) z os) = (/ zq N0)%Qc.
+Proof.
+  intros HN Hos Hdx Hdu Hz Hle. unfold prop_wavelength, qmin. rewrite Hle. unfold dft_alpha. cbn [fst].
+  field. repeat split; try assumption; apply zq_neq0; assumption.
+Qed.
+Theorem reported_wavelength_axis1 N0 N1 dx du z os :
+  N1 <> 0 -> os <> 0 -> snd dx <> 0%Qc -> snd du <> 0%Qc -> z <> 0%Qc ->
+  qleb ((zq N0 / zq os * fst dx * fst du) / z)%Qc ((zq N1 / zq os * snd dx * snd du) / z)%Qc = false ->
+  snd (dft_alpha dx du (prop_wavelength N0 N1 dx du z os) z os) = (/ zq N1)%Qc.
+Proof.
+  intros HN Hos Hdx Hdu Hz Hle. unfold prop_wavelength, qmin. rewrite Hle. unfold dft_alpha. cbn [snd].
+  field. repeat split; try assumption; apply zq_neq0; assumption.
+Qed.
+(* T09c, isotropic regime (square pixels in both planes, hence a square grid): 1/N on both axes *)
+Theorem fft_shape_wavelength N d u z os :
+  N <> 0 -> os <> 0 -> d <> 0%Qc -> u <> 0%Qc -> z <> 0%Qc ->
+  dft_alpha (d, d) (u, u) (prop_wavelength N N (d, d) (u, u) z os) z os = ((/ zq N)%Qc, (/ zq N)%Qc).
+Proof.
+  intros HN Hos Hd Hu Hz. unfold prop_wavelength. cbn [fst snd]. rewrite qmin_same. unfold dft_alpha. cbn [fst snd].
+  assert (E : (d * u / (zq N / zq os * d * u / z * z * zq os) = / zq N)%Qc).
+  { field. repeat split; try assumption; apply zq_neq0; assumption. }
+  now rewrite E.
+Qed.
+(* the wavelength _fft_shape reports is prop_wavelength at the grid it returns; scratch_shape is that grid at the
+   largest wavelength *)
+Lemma fft_shape_reports dx du z wl os :
+  fft_shape dx du z wl os
+  = (fft_grid dx du z wl os, prop_wavelength (fst (fft_grid dx du z wl os)) (snd (fft_grid dx du z wl os)) dx du z os).
+Proof. reflexivity. Qed.
+Lemma scratch_shape_is_grid wls dx du z os : scratch_shape wls dx du z os = fft_grid dx du z (qmaxl wls) os.
+Proof. reflexivity. Qed.
